@@ -97,8 +97,13 @@ def expm_higham_2005(A):
     SIAM. J. Matrix Anal. & Appl. 26, 1179 (2005).
     """
     n_squarings = 0
-    # FIXME: is there an algopy norm implementation?
-    A_L1 = numpy.linalg.norm(A, 1)
+    # the largest 1-norm over the zeroth coefficients of all directions (a
+    # higher Pade order is admissible for the directions of smaller norm)
+    A0 = A.x if isinstance(A, algopy.Function) else A
+    if isinstance(A0, algopy.UTPM):
+        A_L1 = max(numpy.linalg.norm(A0.data[0,p], 1) for p in range(A0.data.shape[1]))
+    else:
+        A_L1 = numpy.linalg.norm(A0, 1)
     ident = numpy.eye(A.shape[0])
     if A_L1 < 1.495585217958292e-002:
         U,V = _expm_pade3(A, ident)
